@@ -27,6 +27,56 @@ def transmission(ctx, mod, src, dst, can, audio, invert=0):
     return samples, bs, nframes
 
 
+SYNC_BYTES = {"lsf": (0x55, 0xF7), "stream": (0xFF, 0x5D), "packet": (0x75, 0xFF), "bert": (0xDF, 0x55)}
+
+
+def synth_transmission(ctx, mod, frames, invert=0, preambles=2):
+    """int16 baseband of preamble(s) + arbitrary frames [(kind, 368 bits)] + EOT through m17-mod's own output_frame / RRC filter (one process,
+    so the filter runs continuously) - used for the frame kinds m17-mod has no command line for (packet superframes) and for BERT.
+    Two preambles by default: with a single one the receiver as it stands loses the frame that follows the preamble (it enters stream
+    transmissions through the LICH), and a packet transmission has no LICH to recover the link setup from."""
+    lines = [f"mod_preamble 0 {invert}"] * preambles
+    for kind, bits in frames:
+        sw = SYNC_BYTES[kind]
+        lines.append(f"mod_frame 0 {invert} {sw[0]} {sw[1]} " + " ".join(map(str, bits)))
+    lines.append(f"mod_eot 0 {invert}")
+    o = ctx.run_impl(mod, lines, "m17mod-synth", timeout=900)
+    raw = bytes(int(x) for r in o for x in r.split())
+    return [struct.unpack("<h", raw[i:i + 2])[0] for i in range(0, len(raw) - 1, 2)]
+
+
+def packet_transmission(ctx, mod, rng, lsf, nframes, invert=0, content=None):
+    """(samples, list of 26-byte packet frame payloads) of a packet superframe: LSF + nframes packet frames (frame counter in the last
+    byte, EOF + byte count on the last one), built by the specification encoder. content: optional bytes to carry (else random)"""
+    frames = [("lsf", S.lsf_frame_bits(lsf))]
+    sent = []
+    for k in range(nframes):
+        last = k == nframes - 1
+        data = [rng.randrange(256) for _ in range(25)] if content is None else list(content[25 * k:25 * k + 25]) + [0] * (25 - len(content[25 * k:25 * k + 25]))
+        used = 25 if content is None or not last else len(content) - 25 * k
+        ctl = ((0x80 | (used << 2)) if last else (k << 2)) & 0xFC
+        by = data + [ctl]
+        bits = S.bits_of(bytes(by))[:206]
+        sent.append(list(S.pack(bits)))
+        frames.append(("packet", S.packet_frame_bits(bits)))
+    return synth_transmission(ctx, mod, frames, invert), sent
+
+
+def bert_transmission(ctx, mod, nframes, start=1, invert=0):
+    """(samples, list of 25-byte frame payloads) of nframes BERT frames carrying consecutive PRBS9 bits"""
+    reg = start & 0x1FF or 1
+    frames, sent = [], []
+    for _ in range(nframes):
+        bits = []
+        for _ in range(197):
+            b = ((reg >> 8) ^ (reg >> 4)) & 1
+            reg = ((reg << 1) | b) & 0x1FF
+            bits.append(b)
+        sent.append(list(S.pack(bits)))
+        frames.append(("bert", S.bert_frame_bits(bits)))
+    return synth_transmission(ctx, mod, frames, invert), sent
+
+
 def expected_frames(bs):
     """(LSF bytes, [18-byte stream payloads]) recovered from the transmitted bitstream by the specification decoder side:
     re-derive from the bitstream using the python spec (inverse not needed: we know what was sent only through the C++
@@ -58,6 +108,10 @@ def parse_frames(rep):
             frames.append(("S", int(f[1]), [int(x) for x in f[2:]]))
         elif f[0] == "K":
             frames.append(("K", [int(x) for x in f[1:]]))
+        elif f[0] == "P":
+            frames.append(("P", int(f[1]), int(f[2]), [int(x) for x in f[3:]]))
+        elif f[0] == "B":
+            frames.append(("B", int(f[1]), [int(x) for x in f[2:]]))
         else:
             frames.append(("O",))
     return h, frames
